@@ -242,19 +242,19 @@ _SERVICE_CANARY = []
 
 
 def service_canary_class():
-    """a real rpyc Service subclass; its write/delete hooks are Service's own (called through super)"""
+    """a real rpyc Service subclass; its write/delete hooks are Service's own, made observable by a logging wrapper
+    (only for the hooks Service really defines)"""
     if not _SERVICE_CANARY:
         _protocol, service, _helpers = rpyc_mods()
-
-        class SvcCanary(CanaryBase, service.Service):
-            def _rpyc_setattr(self, name, value):
-                LOG.append((object.__getattribute__(self, "_tag"), "hs", name))
-                return service.Service._rpyc_setattr(self, name, value)
-
-            def _rpyc_delattr(self, name):
-                LOG.append((object.__getattribute__(self, "_tag"), "hd", name))
-                return service.Service._rpyc_delattr(self, name)
-        _SERVICE_CANARY.append(SvcCanary)
+        ns = {}
+        for hook, kind in (("_rpyc_getattr", "hg"), ("_rpyc_setattr", "hs"), ("_rpyc_delattr", "hd")):
+            orig = getattr(service.Service, hook, None)
+            if orig is not None:
+                def wrapper(self, name, *args, _orig=orig, _kind=kind):
+                    LOG.append((object.__getattribute__(self, "_tag"), _kind, name))
+                    return _orig(self, name, *args)
+                ns[hook] = wrapper
+        _SERVICE_CANARY.append(type("SvcCanary", (CanaryBase, service.Service), ns))
     return _SERVICE_CANARY[0]
 
 
@@ -552,6 +552,7 @@ def observable(shape, line):
 
 
 # ------------------------------------------------------------------------------------------------ configurations
+CUSTOM_SAFE = ["foo", "_x", "__secret__", "exposed_foo"]      # thorough tier: a caller-supplied safe_attrs
 PREFIXES_QUICK = ["exposed_", "x", ""]
 PREFIXES_THOROUGH = ["exposed_", "x", "", "_", "__", "foo", "é_"]
 
@@ -626,12 +627,13 @@ CMP_SHAPES = [("type-has-name", "plain", "n"), ("type-has-twin", "plain", "t"), 
 
 
 # ------------------------------------------------------------------------------------------------ the exhaustive table
-def table_cases(prefixes, shapes=None, name_filter=None):
-    """yields (case dict, model setup lines, model op line, thunk running the real code -> canonical line, shape)"""
+def table_cases(prefixes, shapes=None, name_filter=None, safe=None):
+    """yields (case dict, model setup lines, model op line, thunk running the real code -> canonical line, shape);
+    `safe`: a custom safe_attrs list instead of the default one"""
     for p in prefixes:
         conns = []
         for bits in all_bits():
-            conns.append((bits, make_conn(cfg_dict(bits, p))))
+            conns.append((bits, make_conn(cfg_dict(bits, p, safe))))
         try:
             cfg_lines = ["policy cfg %d %s" % (i, cfg_line_of(c)) for i, (_b, c) in enumerate(conns)]
             for ckey, name in name_classes(p):
@@ -647,6 +649,8 @@ def table_cases(prefixes, shapes=None, name_filter=None):
                         for req in reqs:
                             case = dict(kind="input", prefix=p, bits=bits_str(bits), name_class=ckey,
                                         name=tok, shape=shape.key, req=req)
+                            if safe is not None:
+                                case["safe"] = list(safe)
                             if req == "ctxexit":
                                 line = "policy ctx %d 0" % i
                             else:
@@ -661,6 +665,8 @@ def table_cases(prefixes, shapes=None, name_filter=None):
                     for i, (bits, conn) in enumerate(conns):
                         case = dict(kind="input", prefix=p, bits=bits_str(bits), name_class=ckey, name=tok,
                                     shape=skey, req="cmp")
+                        if safe is not None:
+                            case["safe"] = list(safe)
                         yield (case, cfg_lines, setup, "policy cmp %d 0 %s" % (i, tok),
                                (lambda conn=conn, inst=inst, name=name: run_real(conn, inst, "cmp", name)), None)
                         cfg_lines = []
@@ -965,7 +971,8 @@ def correspondence(ctx):
     prefixes = ctx.budget(PREFIXES_QUICK, PREFIXES_THOROUGH)
     n_hist = ctx.budget(600, 6000)
     c.rule = (
-        "decision table enumerated COMPLETELY: 128 settings of the seven attribute switches x prefixes %r x %d name "
+        "decision table enumerated COMPLETELY (thorough tier: again with a caller-supplied safe list for two prefixes): "
+        "128 settings of the seven attribute switches x prefixes %r x %d name "
         "classes (prefixed, prefixed twice, equal to the prefix, public, safe-listed, _x, _, dunder in/not in the safe "
         "list, inherited dunders, __exit__, empty, non-ASCII, astral, lone surrogate, NUL, valid/invalid/overlong/"
         "surrogate/truncated UTF-8 bytes, int/None/bool/float/tuple/bytearray/str-subclass/bytes-subclass) x %d object "
@@ -982,9 +989,10 @@ def correspondence(ctx):
     t0 = time.time()
     n_table = 0
     sample_every = 104729
-    for p in prefixes:
+    passes = [(p, None) for p in prefixes] + ctx.budget([], [("exposed_", CUSTOM_SAFE), ("", CUSTOM_SAFE)])
+    for p, safe in passes:
         lines, recs = [], []
-        for case, cfgl, setup, line, thunk, shape in table_cases([p]):
+        for case, cfgl, setup, line, thunk, shape in table_cases([p], safe=safe):
             for l in cfgl + setup:
                 lines.append(l)
                 recs.append(None)
@@ -1026,7 +1034,7 @@ def correspondence(ctx):
             for k in (info[0], info[1], info[2], "req:" + case["req"]):
                 dist[k] = dist.get(k, 0) + 1
             if not info[4]:
-                c.signatures.add((p, nc, case["shape"], case["req"], info[3]))
+                c.signatures.add((p, "default-safe" if safe is None else "custom-safe", nc, case["shape"], case["req"], info[3]))
             if got != impl:
                 if len(c.disagreements) < 2000:
                     c.disagreements.append(dict(case=case, impl=impl[:400], model=got[:400], model_raw=o[:400]))
@@ -1162,11 +1170,12 @@ def oracle_case(case):
     bits = [ch == "1" for ch in case["bits"]]
     name = dict(name_classes(p))[case["name_class"]]
     req = case["req"]
-    conn = _ORACLE_CONNS.get((p, case["bits"]))
+    conn = _ORACLE_CONNS.get((p, case["bits"], tuple(case.get("safe") or ())))
     if conn is None:
         if len(_ORACLE_CONNS) > 600:
             _close_oracle_conns()
-        conn = _ORACLE_CONNS[(p, case["bits"])] = make_conn(cfg_dict(bits, p))
+        conn = _ORACLE_CONNS[(p, case["bits"], tuple(case.get("safe") or ()))] = make_conn(
+            cfg_dict(bits, p, case.get("safe")))
     try:
         cfg = conn._config
         text = decoded_or_fallback(name)
@@ -1191,7 +1200,10 @@ def oracle_case(case):
                         hooks[k] = set([text]) if x == "n" else set()
                 hook_err = shape.kw.get("err", AttributeError).__name__
             elif shape.kind == "service":
-                hooks = {"s": set(), "d": set()}
+                # Service's own write/delete hooks refuse everything (if the class defines them at all)
+                for k, h in (("s", "_rpyc_setattr"), ("d", "_rpyc_delattr")):
+                    if getattr(rpyc_mods()[1].Service, h, None) is not None:
+                        hooks[k] = set()
             elif view:
                 hooks = {"g": set([text]) if "n" in shape.kw["attrs"] else set(["other_attr"])}
                 w = shape.kw["wattrs"]
@@ -1424,10 +1436,10 @@ def replay(case):
     p = case["prefix"]
     for cs, cfgl, setup, line, thunk, shape in table_cases(
             [p], shapes=[SHAPE_BY_KEY[case["shape"]]] if case["shape"] in SHAPE_BY_KEY else [SHAPES[0]],
-            name_filter={case["name_class"]}):
+            name_filter={case["name_class"]}, safe=case.get("safe")):
         if cs["bits"] == case["bits"] and cs["req"] == case["req"] and cs["shape"] == case["shape"]:
             impl = thunk()
-            conn = make_conn(cfg_dict([ch == "1" for ch in case["bits"]], p))
+            conn = make_conn(cfg_dict([ch == "1" for ch in case["bits"]], p, case.get("safe")))
             try:
                 cfgline = "policy cfg 0 " + cfg_line_of(conn)
             finally:
